@@ -224,10 +224,18 @@ def run_case(case):
             for what, bad in variants:
                 if sorted(_split(x)[1] for x in bad) == sorted(_split(x)[1] for x in labels):
                     continue  # not a corruption (e.g. l = 0 duplicate)
-                for direction in ("source", "target"):
+                # a duplicated label on both sides (the same damaged table used for source and target, as is or reordered)
+                # is still a convention that duplicates a label
+                directions = ("source", "target") + (("both-same", "both-reordered") if what == "duplicate" else ())
+                for direction in directions:
                     good = {key: list(labels)}
                     badc = {key: list(bad)}
-                    c1, c2 = (badc, good) if direction == "source" else (good, badc)
+                    if direction == "both-same":
+                        c1, c2 = badc, {key: list(bad)}
+                    elif direction == "both-reordered":
+                        c1, c2 = badc, {key: list(bad)[::-1]}
+                    else:
+                        c1, c2 = (badc, good) if direction == "source" else (good, badc)
                     for reverse in (False, True):
                         ncorr += 1
                         counters["convert_calls"] += 1
